@@ -24,6 +24,7 @@ type vrtNativeConn struct {
 	chunks  [][]byte
 	mu      sync.Mutex
 	written []byte
+	sent    int // schedule replay: bytes the code under test has written to the socket (vrtConnWrite)
 }
 
 var vrtConns = map[*net.TCPConn]*vrtNativeConn{}
@@ -182,10 +183,34 @@ func vrt_ConnStart(c *net.TCPConn) {
 func vrt_ConnWritten(c *net.TCPConn) []byte {
 	vrtGate("observe")
 	nc := vrtConnOf(c)
-	time.Sleep(60 * time.Millisecond)
+	if vrtSchedOn() {
+		// schedule replay: every write of the code under test has been counted, and the gates have
+		// ordered this call after them - wait until the peer's side has received all of it
+		for start := vrtWall(); time.Since(start) < 10*time.Second; time.Sleep(200 * time.Microsecond) {
+			nc.mu.Lock()
+			all := len(nc.written) >= nc.sent
+			nc.mu.Unlock()
+			if all {
+				break
+			}
+		}
+	} else {
+		time.Sleep(60 * time.Millisecond)
+	}
 	nc.mu.Lock()
 	defer nc.mu.Unlock()
 	return append([]byte{}, nc.written...)
+}
+
+// vrtConnWrite replaces conn.Write in the instrumented copy of the package (schedule replay).
+func vrtConnWrite(c *net.TCPConn, b []byte) (int, error) {
+	n, err := c.Write(b)
+	if nc := vrtConnOf(c); nc != nil && n > 0 {
+		nc.mu.Lock()
+		nc.sent += n
+		nc.mu.Unlock()
+	}
+	return n, err
 }
 
 // vrt_ConnFailWrites: from now on writes to the connection fail (natively: the write half is shut).
